@@ -98,6 +98,8 @@ type FakeGS struct {
 	BlockSent            graphsync.OnBlockSentListener
 	NetworkError         graphsync.OnNetworkErrorListener
 	ReceiverNetworkError graphsync.OnReceiverNetworkErrorListener
+	// HoldHook, when set, delays the outgoing-request hook of new requests until it is closed
+	HoldHook chan struct{}
 	Unregistered         int
 
 	// CancelGate, when non-nil, holds every Cancel call until the channel is closed (or the call's context ends).
@@ -140,11 +142,15 @@ func (g *FakeGS) Request(ctx context.Context, p peer.ID, root ipld.Link, selecto
 		RespCh: make(chan graphsync.ResponseProgress), ErrCh: make(chan error, 1), HookDone: make(chan struct{})}
 	g.Reqs = append(g.Reqs, r)
 	hook := g.OutgoingRequestHook
+	holdHook := g.HoldHook
 	g.mu.Unlock()
 	g.rec(GSCall{Op: "request", Req: num, Peer: p, Exts: extensions})
 	go func() {
 		defer close(r.HookDone)
 		defer core.RecoverGoroutine("graphsync outgoing-request hook goroutine")
+		if holdHook != nil {
+			<-holdHook // graphsync gets round to the new request in its own time
+		}
 		if hook != nil {
 			acts := &outReqActions{r: r}
 			hook(p, &FakeRequestData{Num: num, RootCid: root.(cidlink.Link).Cid, Sel: selector, Exts: extMap(extensions)}, acts)
